@@ -60,7 +60,7 @@ def describe(c):
 
 # ------------------------------------------------------------------ abstract alphabet (C06)
 
-ALPHABET = ["fullA", "fullB", "fullAdup", "fullArecap", "fullPlaceholder", "fullC_sameRV", "law", "law2", "journal",
+ALPHABET = ["fullA", "fullB", "fullBseries", "fullAdup", "fullArecap", "fullPlaceholder", "fullC_sameRV", "law", "law2", "journal",
             "shortA", "shortAmbig", "shortForeign", "shortAnte",
             "supraA", "supraUnknown", "supraAmbig", "supraRecap", "refA", "refNone",
             "idValid", "idInvalid", "idNoPin", "idNonNumeric", "unknown"]
@@ -84,6 +84,9 @@ def make(sym):
         return F.law_citation("Mass. Gen. Laws ch. 1, § 3", reporter="Mass. Gen. Laws", groups={"chapter": "1", "section": "3"})
     if sym == "fullB":
         return F.case_citation(volume="2", reporter="F.3d", page="20", metadata={"plaintiff": "Beta", "defendant": "Jones"})
+    if sym == "fullBseries":
+        # same volume and page as B in a sibling series of the same reporter (F.2d / F.3d): a different document
+        return F.case_citation(volume="2", reporter="F.2d", page="20", metadata={"plaintiff": "Epsilon", "defendant": "Kappa"})
     if sym == "fullC_sameRV":
         # same reporter and volume as A, different page; shares the party name Smith with A
         return F.case_citation(volume="1", reporter="U.S.", page="300", metadata={"plaintiff": "Gamma", "defendant": "Smithson"})
@@ -172,7 +175,10 @@ def full_key(c):
     if isinstance(c, FullCaseCitation):
         if c.groups.get("page") is None:
             return None
-        return ("case", c.groups.get("volume"), c.corrected_reporter(), c.groups["page"])
+        # normalised reporter = name of the guessed EDITION (F.2d and F.3d are different documents), read from the
+        # edition object rather than through corrected_reporter()
+        rep = c.edition_guess.short_name if c.edition_guess is not None else c.groups.get("reporter")
+        return ("case", c.groups.get("volume"), rep, c.groups["page"])
     return (type(c).__name__, tuple(sorted((k, str(v)) for k, v in c.groups.items())),
             tuple(sorted(e.short_name for e in c.all_editions)))
 
@@ -330,7 +336,14 @@ def monitor_c08(cits, groups, make_copy):
             if not isinstance(cits[p], FullCitation):
                 if not any(isinstance(cits[q], FullCitation) and q < p for q in g):
                     return f"citation #{p} is grouped with a resource not introduced by an earlier full citation"
-    for k in range(len(cits) + 1):
+    ks = range(len(cits) + 1) if len(cits) <= 40 else sorted({0, 1, 2, len(cits) // 3, len(cits) // 3 + 1, len(cits) // 2, 199, 200, 201,
+                                                              len(cits) - 1, len(cits)} & set(range(len(cits) + 1)))
+    if len(cits) > 40:
+        # for long lists also the prefixes ending right after a reference-type citation (supra / short / reference)
+        refpos = [p + 1 for p, c in enumerate(cits) if type(c).__name__ in ("SupraCitation", "ShortCaseCitation", "ReferenceCitation")
+                  and type(c).__name__ != "UnknownCitation"]
+        ks = sorted(set(ks) | set(refpos[:8]) | set(refpos[-4:]))
+    for k in ks:
         pre = make_copy()[:k]
         out = run_impl(pre)
         if out[0] != "ok":
@@ -360,6 +373,13 @@ def symbol_lists(ctx, exhaustive_len, n_sampled, max_len):
         ["law", "law2", "idNoPin"],                     # two sections of one code are different resources
     ]
     lists = corpus + lists
+    # long documents (> 200 citations) whose references point far back: any windowing / size-dependent shortcut shows
+    for _ in range(2):
+        fillers = ["fullB", "fullBseries", "law", "law2", "journal", "fullPlaceholder", "idNoPin", "unknown", "supraUnknown", "refNone"]
+        fulls_only = ["fullB", "fullBseries", "law", "law2", "journal", "fullPlaceholder"]
+        long_ = (["fullA"] + [ctx.rng.choice(fulls_only) for _ in range(ctx.rng.choice([70, 90]))] + ["supraA", "refA", "shortAnte", "idValid"]
+                 + [ctx.rng.choice(fillers) for _ in range(ctx.rng.choice([130, 150]))] + ["supraA"])
+        lists.append(long_)
     for _ in range(n_sampled):
         L = ctx.rng.randrange(exhaustive_len + 1, max_len + 1)
         lists.append([ctx.rng.choice(ALPHABET) for _ in range(L)])
